@@ -130,6 +130,11 @@ func Load(configPath string) (*Config, error) {
 	if err := json.NewDecoder(configFile).Decode(&cfg.content); err != nil {
 		return nil, fmt.Errorf("failed to decode config file at %s: %w: %v", configPath, ErrInvalidConfigFormat, err)
 	}
+	if cfg.content == nil {
+		// the config file holds the JSON value null: treat it as an empty
+		// config so that saving does not write into a nil map
+		cfg.content = make(map[string]json.RawMessage)
+	}
 
 	if credsStoreBytes, ok := cfg.content[configFieldCredentialsStore]; ok {
 		if err := json.Unmarshal(credsStoreBytes, &cfg.credentialsStore); err != nil {
